@@ -39,8 +39,8 @@ type Gen struct {
 	Known  []Ref // deliveries handed out by pulls
 	// publish times the server reported in pull responses (seek boundaries)
 	PubTimes []int64
-	Snaps  []string
-	SubSeq int
+	Snaps    []string
+	SubSeq   int
 }
 
 func NewGen(seed int64, p Profile) *Gen {
